@@ -15,6 +15,10 @@ PoolDef == { [id |-> "v0", class |-> "valid", steps |-> 0, stateful |-> FALSE],
              [id |-> "bad", class |-> "invalid", steps |-> 1, stateful |-> FALSE],
              [id |-> "mal", class |-> "malformed", steps |-> 0, stateful |-> FALSE],
              [id |-> "div", class |-> "diverging", steps |-> 0, stateful |-> FALSE] }
+(* the assumptions of spec/proofs/Service_proofs.tla about the pool, checked on this instance by TLC at start-up *)
+ASSUME PoolAssumptions ==
+  /\ \A r \in PoolDef : r.class \in {"valid", "invalid", "malformed", "diverging"} /\ r.steps \in Nat
+  /\ \A r1, r2 \in PoolDef : r1.id = r2.id => r1.class = r2.class
 (* bound the exploration: at most MaxOps accepted requests in total *)
 Accepted == Cardinality({i \in DOMAIN sched : sched[i][2] = "accepted"})
 Bounded == Accepted <= MaxOps
